@@ -1,4 +1,4 @@
-mod gen; mod pipe; mod led; mod spd; mod shut; mod geo; mod c03; mod c03b; mod disp; mod est; mod trn; mod c10; mod rt; mod c19;
+mod gen; mod pipe; mod led; mod spd; mod shut; mod geo; mod c03; mod c03b; #[cfg(feature = "scratch-dispatch")] mod disp; mod est; mod trn; mod c10; mod rt; mod c19;
 use altrios_core::prelude::*;
 use altrios_core::traits::*;
 use altrios_core::consist::locomotive::locomotive_model::PowertrainType;
@@ -88,7 +88,7 @@ fn main() {
         "c10" => c10::run(),
         "trn" => { let a: Vec<String> = std::env::args().collect(); trn::search(a[2].parse().unwrap(), a[3].parse().unwrap()) },
         "est" => { let a: Vec<String> = std::env::args().collect(); est::search(a[2].parse().unwrap(), a[3].parse().unwrap()) },
-        "disp" => { let a: Vec<String> = std::env::args().collect(); disp::search(a[2].parse().unwrap(), a[3].parse().unwrap(), a[4].parse().unwrap(), a[5].parse().unwrap()) },
+        #[cfg(feature = "scratch-dispatch")] "disp" => { let a: Vec<String> = std::env::args().collect(); disp::search(a[2].parse().unwrap(), a[3].parse().unwrap(), a[4].parse().unwrap(), a[5].parse().unwrap()) },
         "c03b" => c03b::search(),
         "c03" => c03::search(),
         "geo" => { let mut c = std::collections::BTreeMap::new(); for seed in 1..=5000u64 { let r = std::panic::catch_unwind(|| geo::run(seed)); let k = match r { Ok(Ok(())) => "ok".to_string(), Ok(Err(e)) => e.chars().take(60).collect(), Err(_) => "PANIC".into() }; *c.entry(k).or_insert(0) += 1; } println!("{c:?}"); },
